@@ -123,6 +123,8 @@ def leaf_args(rng, fn, pre="none", well_typed=False):
             return [rng.choice(TYPES)], {}
         if fn in ("in_", "not_in"):
             r = rng.random()
+            if r < 0.1 and not well_typed:
+                return [tuple(scalar(rng) for _ in range(rng.randint(0, 4)))], {}     # a tuple container
             if r < 0.55:
                 return [[scalar(rng) for _ in range(rng.randint(0, 4))]], {}
             if r < 0.75:
@@ -131,6 +133,8 @@ def leaf_args(rng, fn, pre="none", well_typed=False):
                 ks = distinct_keys(rng, rng.randint(0, 3))
                 return [{k: scalar(rng) for k in ks}], {}
             return [scalar(rng)], {}
+        if not well_typed and rng.random() < 0.06:
+            return [tuple(scalar(rng) for _ in range(rng.randint(0, 3)))], {}          # tuple-typed argument
         return [value(rng, 1) if rng.random() < 0.25 else scalar(rng)], {}
     if fn in ("in_range", "not_in_range"):
         lo = rng.randint(-3, 4)
@@ -159,6 +163,9 @@ def leaf_args(rng, fn, pre="none", well_typed=False):
         ts = rng.sample(TYPES, rng.randint(0 if not well_typed else 1, 3))
         if rng.random() < ill:
             ts.insert(rng.randint(0, len(ts)), rng.choice([3, "int", None]))
+        if not well_typed and ts and rng.random() < 0.12:
+            j = rng.randrange(len(ts))
+            ts = ts[:j] + [tuple(ts[j:])]          # isinstance accepts (nested) tuples of classes
         return ts, {}
     if fn == "keys_contain":
         return [key(rng, 0.6) if rng.random() > ill else [1]], {}
